@@ -273,29 +273,13 @@ impl<L: Language, N: Analysis<L>> EGraph<L, N> {
                     assert_eq!(pc1.target_id(), pc2.target_id());
                 }
 
-                #[allow(unused)]
                 let (a, b, proof) = self.pc_congruence(&pc1, &pc2);
 
-                // or is it the opposite direction? (flip a with b)
-                let perm = a.m.compose(&b.m.inverse());
-
-                let proven_perm = ProvenPerm {
-                    elem: perm,
-
-                    #[cfg(feature = "explanations")]
-                    proof,
-
-                    #[cfg(feature = "explanations")]
-                    reg: self.proof_registry.clone(),
-                };
-
-                if CHECKS {
-                    proven_perm.check();
-                }
-                let grp = &mut self.classes.get_mut(&i).unwrap().group;
-                if grp.add(proven_perm) {
-                    self.touched_class(i, PendingType::Full);
-                }
+                // `a` and `b` are invocations of the same class.
+                // If they use the same slots, this union adds a symmetry to the group of the class.
+                // Otherwise (a symmetry of a child moved a redundant slot of this e-node onto a non-redundant one),
+                // it makes further slots of the class redundant.
+                self.union_internal(&a, &b, proof);
             }
         }
     }
